@@ -21,7 +21,17 @@ pub const WRONG_TYPE_CLIENT: u32 = 9000;
 pub fn do_send(trace: &Arc<Trace>, actor: &ActorRef<PMsg>, client: u32, seq: u64, script: Script, api: u64) -> i64 {
     let w = Work::new(trace, client, seq, script);
     trace.log(Ev::Call { client, op: "send", arg: seq });
-    let r = match api % 4 {
+    let r = match api % 5 {
+        4 => {
+            // through a derived reference (converter closure in front of the mailbox): a refused send hands the *derived* message back
+            let d: ractor::DerivedActorRef<crate::probe::DWork> = actor.get_derived();
+            match d.send_message(crate::probe::DWork(w)) {
+                Ok(()) => Ok(()),
+                Err(MessagingErr::SendErr(crate::probe::DWork(back))) => Err(MessagingErr::SendErr(PMsg::Work(back))),
+                Err(MessagingErr::ChannelClosed) => Err(MessagingErr::ChannelClosed),
+                Err(MessagingErr::InvalidActorType) => Err(MessagingErr::InvalidActorType),
+            }
+        }
         0 => actor.send_message(PMsg::Work(w)),
         1 => actor.cast(PMsg::Work(w)),
         2 => actor.get_cell().send_message::<PMsg>(PMsg::Work(w)),
@@ -379,7 +389,7 @@ pub fn run_one_vt(seed: u64, rep: &mut Report) {
                     if sp.chance(1, 6) {
                         do_forward_send(&tr, &a, &sink, s as u32, j, script);
                     } else {
-                        do_send(&tr, &a, s as u32, j, script, sp.below(4));
+                        do_send(&tr, &a, s as u32, j, script, sp.below(5));
                     }
                 }
             }));
@@ -475,7 +485,7 @@ pub fn run_one_th(seed: u64, rt: &tokio::runtime::Runtime, rep: &mut Report) {
             let mut self_seq = 1_000_000 * (s + 1);
             for j in 0..m {
                 let script = gen_script(&mut sp, &mut self_seq, fail_ok);
-                do_send(&tr, &a, s as u32, j, script, sp.below(4));
+                do_send(&tr, &a, s as u32, j, script, sp.below(5));
                 if sp.chance(1, 6) {
                     std::thread::yield_now();
                 }
